@@ -594,6 +594,28 @@ pub fn c02(tier: &str, seed: u64) {
     case(true);
     stat("oracle.boundary_thresholds");
   }
+  // the sharing layer under a random source the CALLER supplies (Evaluator::gen is public API): a
+  // single share must not hold the secret, however unlucky the draws - here 1..8 consecutive draws
+  // of the zero element (a share at x = 0 is the secret itself)
+  for run in 1..=8usize {
+    for t in [2u32, 3, 5] {
+      use crate::o_sharks::RecRng;
+      let secret = crate::s_fp::le24(g.next() as u128 | 1, 0).to_vec();
+      let mut drng = RecRng { inner: Sm(g.next()), words: vec![], zero_next: 0 };
+      let mut ev = star_sharks::Sharks(t).dealer_rng(&secret, &mut drng).expect("dealer");
+      let mut grng = RecRng { inner: Sm(g.next()), words: vec![], zero_next: 3 * run };
+      let sh = ev.gen(&mut grng);
+      let b = crate::s_sharks::share_bytes(&sh);
+      if b[..24] == [0u8; 24] || b[24..48] == secret[..] {
+        fail(
+          "secret_in_clear_in_report",
+          &[("secret", "the shared secret: Evaluator::gen dealt the share at x = 0".into()), ("threshold", t.to_string()), ("zero_draws_before_a_nonzero_one", run.to_string()), ("share", hex(&b)), ("shared_secret", hex(&secret))],
+        );
+      }
+      case(true);
+      stat("oracle.gen_zero_runs");
+    }
+  }
 }
 
 // ---------------------------------------------------------------------------------------------
@@ -807,6 +829,23 @@ pub fn c04(tier: &str, seed: u64) {
       let (_, k2, t2, _) = triple_outputs(&m, &e, t);
       if k2 != key || t2 != tag {
         fail("equal_triples_different_key", &[("measurement", hex(&m)), ("epoch", hex(&e)), ("threshold", t.to_string())]);
+      }
+    }
+    // a generator built for another measurement and re-pointed at `m` through its public field is a
+    // client holding the triple (m, e, t): same tag and key as everyone else's, not the old triple's
+    {
+      let mut other = m.clone();
+      other.push(0x5a);
+      let mut mg = MessageGenerator::new(SingleMeasurement::new(&other), t, &e);
+      mg.x = SingleMeasurement::new(&m);
+      let mut r = [0u8; 32];
+      mg.sample_local_randomness(&mut r);
+      let w = mg.share_with_local_randomness().expect("share");
+      if r[..] != rnd[..] || w.tag[..] != tag[..] || w.key[..] != key[..] {
+        fail(
+          "equal_triples_different_tag_after_field_reassignment",
+          &[("built_for", hex(&other)), ("reassigned_to", hex(&m)), ("epoch", hex(&e)), ("threshold", t.to_string()), ("tag", hex(&w.tag)), ("expected_tag", hex(&tag))],
+        );
       }
     }
     // mutually combinable: any t of them recover
